@@ -23,6 +23,10 @@ def resize (B : Nat) (v : Bits) (n : Nat) (b : Bool) : Bits :=
 
 def clear (_v : Bits) : Bits := []
 
+/-- `BitSetVector(const std::vector<bool>&)` : `none` = `Dune::RangeError` ("Vector size is not a multiple of the
+    block size!") -/
+def ofVector (B : Nat) (bits : Bits) : Option Bits := if bits.length % B != 0 then none else some bits
+
 /-- `size()` = `BlocklessBaseClass::size()/block_size` -/
 def size (B : Nat) (v : Bits) : Nat := v.length / B
 
